@@ -5,3 +5,7 @@ package formatting
 
 // Indented(f) and Delimited(w, sep, items, action) call nothing dynamically except the function they are given.
 //@ callback-parametric file internal/formatting/formatting.go
+//@ func ToSnakeCase
+//@   pure
+//@ func ToPascalCase
+//@   pure
